@@ -150,7 +150,7 @@ impl MT942 {
 
     /// Get the base currency from the mandatory debit floor limit
     fn get_base_currency(&self) -> &str {
-        &self.floor_limit_debit.currency[0..2]
+        currency_prefix(&self.floor_limit_debit.currency)
     }
 
     // ========================================================================
@@ -166,7 +166,7 @@ impl MT942 {
 
         // Check floor limit credit if present
         if let Some(ref floor_limit_credit) = self.floor_limit_credit {
-            let credit_currency = &floor_limit_credit.currency[0..2];
+            let credit_currency = currency_prefix(&floor_limit_credit.currency);
             if credit_currency != base_currency {
                 errors.push(SwiftValidationError::content_error(
                     "C27",
@@ -183,7 +183,7 @@ impl MT942 {
 
         // Check field 90D if present
         if let Some(ref field_90d) = self.field_90d {
-            let field_90d_currency = &field_90d.currency[0..2];
+            let field_90d_currency = currency_prefix(&field_90d.currency);
             if field_90d_currency != base_currency {
                 errors.push(SwiftValidationError::content_error(
                     "C27",
@@ -200,7 +200,7 @@ impl MT942 {
 
         // Check field 90C if present
         if let Some(ref field_90c) = self.field_90c {
-            let field_90c_currency = &field_90c.currency[0..2];
+            let field_90c_currency = currency_prefix(&field_90c.currency);
             if field_90c_currency != base_currency {
                 errors.push(SwiftValidationError::content_error(
                     "C27",
